@@ -450,4 +450,28 @@ def mplLightness (sqrtF : Rat → Rat) (f : Fld) (o : Opts) : M (List PlotCall) 
     lightCore f o (fun i => .val ((f.data.get i).getD 0 0))
       ⟨f.mesh.n, fun i => absR ((f.data.get i).getD 0 0)⟩ (filterOf f o)
 
+/-! ## matplotlib's own precondition on `contour(X, Y, Z)`
+
+`matplotlib.contour.QuadContourSet._check_xyz` (the documented requirement of `Axes.contour`):
+`Z` is two-dimensional and at least `(2, 2)` ("Input z must be at least a (2, 2) shaped array"),
+`len(X)` is the number of columns of `Z`, `len(Y)` its number of rows; otherwise `TypeError`.
+The call is made before the axis labels are set. -/
+
+/-- the precondition of `ax.contour(X, Y, Z)` -/
+def contourArgsOk (X Y : List Rat) (Z : NDA (Option Rat)) : Bool :=
+  decide (Z.shape.length = 2) && decide (2 ≤ Z.shape.getD 0 0) && decide (2 ≤ Z.shape.getD 1 0) &&
+  decide (X.length = Z.shape.getD 1 0) && decide (Y.length = Z.shape.getD 0 0)
+
+/-- does matplotlib accept every `contour` call of a list of calls? -/
+def callsAccepted : List PlotCall → Bool
+  | [] => true
+  | .contour X Y Z :: rest => contourArgsOk X Y Z && callsAccepted rest
+  | _ :: rest => callsAccepted rest
+
+/-- `field.mpl.contour(...)` including matplotlib's refusal (`TypeError` out of `ax.contour`) -/
+def mplContourMpl (f : Fld) (o : Opts) : M (List PlotCall) :=
+  match mplContour f o with
+  | .error e => .error e
+  | .ok calls => if callsAccepted calls then .ok calls else .error .type
+
 end DFV.C20
